@@ -271,6 +271,25 @@ def bounded(tier, seed, procs):
                 if why:
                     b.fail(Failure("unifier", f"{'cause=neutral-or-absorbing-constant ' if why.startswith('cause=neutral') else ''}pattern={pat!r} target={t!r} candidates={cands} why={why}", dict(kind="unify", pattern=trees.src(pat), target=trees.src(t), cands=cands),
                                    expected="sound records", actual=why, functions=["UnidirectionalUnifier.map_commut_assoc", "UnifierBase"]))
+    # long sums: f_0(c_0) + ... + f_{n-1}(c_{n-1}) + a + b followed by a second occurrence of a, against its injective renaming
+    # (the leftovers of the sum are offered to a, b in the iteration order of a set of indices, which is not ascending for every n)
+    g_ = p.Variable("g")
+    for n in range(1, 13 if tier == "thorough" else 11):
+        for first in (False, True):
+            fs = [p.Variable(f"f{i}") for i in range(n)]
+            terms = [p.Call(fs[i], (p.Variable(f"c{i}"),)) for i in range(n)]
+            tterms = [p.Call(fs[i], (p.Variable(f"z{i}"),)) for i in range(n)]
+            va, vb, vx, vy = (p.Variable(k) for k in "abxy")
+            for second in (va, vb):
+                pat = p.Call(g_, (p.Sum(tuple(([va, vb] if first else []) + terms + ([] if first else [va, vb]))), second))
+                tgt = p.Call(g_, (p.Sum(tuple(([vx, vy] if first else []) + tterms + ([] if first else [vx, vy]))), vx if second is va else vy))
+                cands = {"a", "b"} | {f"c{i}" for i in range(n)}
+                r = outcome.run(lambda: UnidirectionalUnifier(lhs_mapping_candidates=cands)(pat, tgt))
+                b.case(("long-sum", n, first, second.name), nontrivial=True, sample=dict(operands=n + 2, variables_first=first))
+                ok = r[0] == "val" and len(r[1]) >= 1 and all(ac_norm(instantiate(pat, {l.name: rv for l, rv in rec.equations})) == ac_norm(tgt) for rec in r[1])
+                if not ok:
+                    b.fail(Failure("unifier", f"what=renaming-of-long-sum operands={n + 2} variables_first={first} repeated={second.name}", dict(kind="unify-long", n=n, first=first, second=second.name),
+                                   expected=">= 1 sound record (the target is an injective renaming of the pattern)", actual=outcome.describe(r)[:200], functions=["UnidirectionalUnifier.map_commut_assoc"]))
     b2 = matchpy_bridge(tier)
     return [b, b2, b_falsy_bindings(tier)]
 
